@@ -41,13 +41,13 @@ def run(ctx, col, tier):
     col.rule("R-TERM", "the atoms are what the definition says: sphere = (node position, node "
              "radius); frustum from this node to each child (near end = this node); child sphere "
              "and child frustum paired by position; every node's contribution is added exactly "
-             "once and the node's sphere is handed to its parent", floor=7)
+             "once and the node's sphere is handed to its parent", floor=7, shape=True)
     col.rule("R-FORM", c13_rule("R-FORM"), floor=8, exhaustive=True)
     col.rule("R-CELL", c13_rule("R-CELL"), floor=20, exhaustive=True)
-    col.rule("R-ROLE", c13_rule("R-ROLE"), floor=8)
+    col.rule("R-ROLE", c13_rule("R-ROLE"), floor=8, shape=True)
     col.rule("R-GEO", "every term is a volume (degree 3)", floor=4, exhaustive=True)
     col.rule("R-LADDER", "sphere.intersect(frustum) and child.intersect(frustum) resolve to the "
-             "closed sphere/frustum form with the sphere as first operand", floor=3)
+             "closed sphere/frustum form with the sphere as first operand", floor=3, shape=True)
     col.not_decided += ["the value of each primitive term (structure decided under the C13 rules "
                         "repeated here)", "the pairwise frustum term of level >= 5 (sampled)",
                         "configurations outside the premise (compartments shorter than a radius, "
@@ -205,7 +205,7 @@ def entry(ctx, col):
     first = [s for s in d.node.body if not (isinstance(s, ast.Expr) and isinstance(s.value, ast.Constant))][0]
     ok = isinstance(first, ast.If) and norm_src(first.test) == "accuracy == 10" and \
         [norm_src(s) for s in first.body] == ["return _get_volume_frustum_cone_mc_only(tree)"]
-    col.check(ok, "R-GATE", d.qualname, d.loc(first), "level 10 is handled by the sampling routine only", "",
+    col.shape(ok, "R-GATE", d.qualname, d.loc(first), "level 10 is handled by the sampling routine only", "",
               "level 10 does not leave for the sampling routine first", stmt="gate:10")
     f = Folder(repo, g.module, g)
     try:
@@ -220,14 +220,14 @@ def entry(ctx, col):
                   f"ACCURACY_LEVELS = {table}", stmt="named")
     asserts = [s for s in g.node.body if isinstance(s, ast.Assert)]
     ok = len(asserts) == 1 and norm_src(asserts[0].test) in ("0 < accuracy <= 10", "1 <= accuracy <= 10")
-    col.judge(len(asserts) == 1, ok, "R-GATE", g.qualname, g.loc(asserts[0]) if asserts else g.loc(), "admitted levels are 1..10",
+    col.shape(ok, "R-GATE", g.qualname, g.loc(asserts[0]) if asserts else g.loc(), "admitted levels are 1..10",
               "", f"assert is `{norm_src(asserts[0].test) if asserts else ''}`", stmt="domain")
     conv = [s for s in g.node.body if isinstance(s, ast.If) and "isinstance(accuracy, str)" in norm_src(s.test)]
     ok = len(conv) == 1 and [norm_src(s) for s in conv[0].body] == ["accuracy = ACCURACY_LEVELS[accuracy]"]
-    col.check(ok, "R-GATE", g.qualname, g.loc(), "a named level is translated through the table", "", "named level not looked up in ACCURACY_LEVELS", stmt="lookup")
+    col.shape(ok, "R-GATE", g.qualname, g.loc(), "a named level is translated through the table", "", "named level not looked up in ACCURACY_LEVELS", stmt="lookup")
     calls = [c for c in own_nodes(g) if isinstance(c, ast.Call) and dotted(c.func) == "_get_volume_frustum_cone"]
     ok = len(calls) == 1 and norm_src(calls[0]) == "_get_volume_frustum_cone(tree, accuracy=accuracy)"
-    col.check(ok, "R-GATE", g.qualname, g.loc(), "the level reaches the computation unchanged", "", "accuracy is not forwarded", stmt="forward")
+    col.shape(ok, "R-GATE", g.qualname, g.loc(), "the level reaches the computation unchanged", "", "accuracy is not forwarded", stmt="forward")
 
 
 def ladder(ctx, col):
